@@ -119,6 +119,124 @@ def contracts(p: Program) -> list[str]:
             "'_final_mapping')",
         ]},
     ))
+    # ---- routing / layout: the passes' own bookkeeping around the main loop
+    PERM = '''len(final(pi)) == len(pi)
+              and forall(lambda k: implies(0 <= k and k < len(pi),
+                    0 <= final(pi)[k] and final(pi)[k] < len(pi)), 'int')
+              and forall(lambda a, b: implies(
+                    0 <= a and a < b and b < len(pi),
+                    final(pi)[a] != final(pi)[b]), 'int', 'int')'''
+    for fn in ('forward_pass', 'backward_pass'):
+        p.contract(Contract(
+            'GeneralizedSabreAlgorithm.%s' % fn,
+            params={'circuit': 'Circuit', 'pi': 'list[int]',
+                    'cg': 'CouplingGraph', 'modify_circuit': 'bool'},
+            requires=[
+                '''forall(lambda a, b: implies(
+                     0 <= a and a < b and b < len(pi), pi[a] != pi[b]),
+                     'int', 'int')''',
+                '''forall(lambda k: implies(0 <= k and k < len(pi),
+                     0 <= pi[k] and pi[k] < len(pi)), 'int')''',
+            ],
+            ensures=[
+                PERM,
+                # ghost: the log records the map the pass ends with
+                "eff(nsent() - 1, 'sabre.%s', self, circuit, final(pi))" % fn,
+                'nsent() == old(nsent()) + 1',
+                "unchanged('_placement', '_initial_mapping', "
+                "'_final_mapping', '_model')",
+            ],
+            modifies=['absstate', 'effects'], raises=[],
+            note='assumed (main loop: bounded check pybound.c09_checks)',
+        ))
+    p.contract(Contract(
+        'GeneralizedSabreAlgorithm._apply_perm',
+        params={'perm': 'list[int]', 'pi': 'list[int]'},
+        requires=[
+            'len(perm) == len(pi)',
+            '''forall(lambda k: implies(0 <= k and k < len(perm),
+                 0 <= perm[k] and perm[k] < len(perm)), 'int')''',
+            '''forall(lambda a, b: implies(
+                 0 <= a and a < b and b < len(perm), perm[a] != perm[b]),
+                 'int', 'int')''',
+        ],
+        ensures=[
+            'len(final(pi)) == len(pi)',
+            # for a full permutation sorted(perm) is 0..n-1
+            '''forall(lambda q: implies(0 <= q and q < len(pi),
+                 final(pi)[q] == pi[perm[q]]), 'int')''',
+        ],
+        modifies=[], raises=[],
+        note='assumed (dict comprehension over sorted(perm); checked '
+             'exhaustively on S_4 / S_5 by pybound.c09_checks)',
+    ))
+    add(Contract(
+        'GeneralizedSabreRoutingPass.run',
+        params={'circuit': 'Circuit', 'data': 'PassData'},
+        requires=[
+            'allocated(circuit)', 'allocated(data)',
+            'circuit.num_qudits >= 0',
+            # the mapping names circuit qudits
+            '''forall(lambda l: implies(
+                 0 <= l and l < len(data._final_mapping),
+                 0 <= data._final_mapping[l]
+                 and data._final_mapping[l] < circuit.num_qudits), 'int')''',
+        ],
+        ensures=[
+            "eff_kind(nsent() - 1, 'sabre.forward_pass')",
+            'len(data._final_mapping) == old(len(data._final_mapping))',
+            # composed with, not overwritten by, the map the routing ends with
+            '''forall(lambda l: implies(
+                 0 <= l and l < len(data._final_mapping),
+                 data._final_mapping[l]
+                 == eff_c(nsent() - 1, 'list[int]')[
+                     old(data._final_mapping)[l]]), 'int')''',
+            "unchanged('_placement', '_initial_mapping', '_model')",
+        ],
+        raises=['RuntimeError'],
+        exc_ensures={'RuntimeError': [
+            "unchanged('_placement', '_initial_mapping', '_final_mapping')",
+        ]},
+    ))
+    add(Contract(
+        'GeneralizedSabreLayoutPass.run',
+        params={'circuit': 'Circuit', 'data': 'PassData'},
+        requires=[
+            'allocated(circuit)', 'allocated(data)',
+            'circuit.num_qudits >= 0', 'self.total_passes >= 1',
+            'len(data._placement) == circuit.num_qudits',
+        ],
+        ensures=[
+            'len(data._placement) == old(len(data._placement))',
+            "eff_kind(nsent() - 1, 'sabre.backward_pass')",
+            # circuit qudit q moves to where qudit pi[q] was placed
+            '''forall(lambda q: implies(0 <= q and q < len(data._placement),
+                 data._placement[q] == old(data._placement)[
+                     eff_c(nsent() - 1, 'list[int]')[q]]), 'int')''',
+            "unchanged('_initial_mapping', '_final_mapping', '_model')",
+        ],
+        raises=['RuntimeError'],
+        exc_ensures={'RuntimeError': [
+            "unchanged('_placement', '_initial_mapping', '_final_mapping')",
+        ]},
+        loops={0: {
+            'header': 'range(self.total_passes)',
+            'invariant': [
+                '0 <= _i and _i <= self.total_passes',
+                'len(pi) == circuit.num_qudits',
+                '''forall(lambda k: implies(0 <= k and k < len(pi),
+                     0 <= pi[k] and pi[k] < len(pi)), 'int')''',
+                '''forall(lambda a, b: implies(
+                     0 <= a and a < b and b < len(pi), pi[a] != pi[b]),
+                     'int', 'int')''',
+                '''implies(_i >= 1,
+                     eff(nsent() - 1, 'sabre.backward_pass', self, circuit,
+                         pi))''',
+                "unchanged('_placement', '_initial_mapping', "
+                "'_final_mapping', '_model')",
+            ],
+        }},
+    ))
     return targets
 
 
